@@ -496,6 +496,8 @@ def rhd_param(c):
         t += "HydroMask:\n  type: RescaledIC\n  center: [%g m, %g m, %g m]\n  radius: %g m\n  delta t: 0.001 s\n" % (tuple(mc) + (c.get("mask_radius", 0.2) * min(sides),))
     if c.get("turbulence"):
         t += "TurbulenceForcing:\n  forcing power: 1.e-4 m^2 s^-3\n  time step: 0.001 s\n"
+    if c.get("fields"):
+        t += "DensityGridWriterFields:\n" + "".join("  %s: %d\n" % kv for kv in c["fields"].items())
     if c.get("live") is not None:
         t += "LiveOutputManager:\n  enabled: %s\n  output interval: 0.002 s\n" % b(c["live"])
         for k, name in (("live_sd", "output surface density"), ("live_isd", "output ionized surface density"),
@@ -546,6 +548,8 @@ DensityGridWriter:
         c.get("iterations", 2), c.get("photons", 1000), c.get("nbuf", 20000), c.get("queue", 5000), c.get("queue", 5000), c.get("ntasks", 20000), c.get("copy_level", 2))
     if c.get("diffuse"):
         t += "  diffuse field: true\nDiffuseReemissionHandler:\n  type: Physical\n"
+    if c.get("fields"):
+        t = t.replace("TaskBasedIonizationSimulation:\n", "DensityGridWriterFields:\n" + "".join("  %s: %d\n" % kv for kv in c["fields"].items()) + "TaskBasedIonizationSimulation:\n")
     if c.get("trackers"):
         t += "  enable trackers: true\n" if not c.get("diffuse") else ""
         if c.get("diffuse"):
@@ -835,6 +839,171 @@ def block_crossing_items(ctx):
     return items
 
 
+FIELDS_FALLBACK = """field 0 Coordinates single 0 vector 1 1
+field 1 NumberDensity single 0 scalar 1 0
+field 2 Temperature single 0 scalar 0 1
+field 3 NeutralFraction ion 0 scalar 1 1
+field 5 Density single 1 scalar 0 1
+field 6 Velocities single 1 vector 0 1
+field 7 Pressure single 1 scalar 0 1
+ion 0 H
+ion 1 He
+heating 0 H
+heating 1 He
+"""
+
+
+def output_field_table(ctx):
+    """the keys DensityGridWriterFields accepts, by calling the real static functions of the tree
+    under test (harness/c12_fields.cpp); literal fallback with a note"""
+    text = None
+    try:
+        h = vlib.build_harness("c12_fields")
+        rc, out, err = vlib.run_exe(h, "")
+        if rc == 0 and "field" in out:
+            text = out
+    except vlib.HarnessBuildError:
+        pass
+    if text is None:
+        ctx.notes.append("C12: the output field table could not be obtained from DensityGridWriterFields.hpp (harness/c12_fields.cpp does not build/run); a literal table is used")
+        text = FIELDS_FALLBACK
+    fields, ions, heat = [], [], []
+    for l in text.split("\n"):
+        w = l.split()
+        if len(w) >= 6 and w[0] == "field":
+            fields.append(dict(name=w[2], kind=w[3], hydro=w[4] == "1", vector=w[5] == "vector"))
+        elif len(w) == 3 and w[0] == "ion":
+            ions.append(w[2])
+        elif len(w) == 3 and w[0] == "heating":
+            heat.append(w[2])
+    ctx.cov["output_fields"] = {"fields": [f["name"] for f in fields], "ions": ions, "heating_terms": heat}
+    return fields, ions, heat
+
+
+def field_keys(f, ions, heat):
+    return [f["name"] + i for i in ions] if f["kind"] == "ion" else [f["name"] + i for i in heat] if f["kind"] == "heating" else [f["name"]]
+
+
+KEY_ION_GAP = "run:output-ion-selected-without-lower-ions-buffer-overflow"
+
+
+def has_ion_gap(flds, fields, ions, heat):
+    """the configuration class of the recorded finding: an ion (heating term) of a field is
+    switched on while a lower-numbered one of the same field is off"""
+    for f in fields:
+        if f["kind"] == "single":
+            continue
+        keys = field_keys(f, ions, heat)
+        vals = [flds.get(k, 1 if (i == 0 and f["name"] == "NeutralFraction") else 0) for i, k in enumerate(keys)]
+        on = [i for i, v in enumerate(vals) if v]
+        if on and not all(vals[:max(on)]):
+            return True
+    return False
+
+
+def output_option_items(ctx):
+    """the snapshot writers' output options: several ions per field, everything on, (thorough) each
+    field alone / with all its ions / everything off but the coordinates; Gadget writer in both
+    task-based modes, the AsciiFile writer (which has a fixed field list) once"""
+    fields, ions, heat = output_field_table(ctx)
+    allkeys = [(f, k) for f in fields for k in field_keys(f, ions, heat)]
+    sets = []
+    many = {k: 1 for f, k in allkeys if f["kind"] != "single"}
+    sets.append(("many-ions", many, True))
+    sets.append(("everything-on", {k: 1 for f, k in allkeys}, True))
+    if ctx.thorough:
+        sets.append(("everything-off-but-coordinates", {k: int(f["name"] == "Coordinates") for f, k in allkeys}, False))
+        sets.append(("two-ions", {k: 1 for f, k in allkeys if f["kind"] == "ion" and k in [f["name"] + i for i in ions[:2]]}, False))
+        for f in fields:
+            keys = field_keys(f, ions, heat)
+            alone = {k: 0 for _, k in allkeys}
+            alone.update({k: 1 for k in keys})
+            alone.update({k: 1 for g, k in allkeys if g["name"] == "Coordinates"})
+            sets.append(("only-" + f["name"], alone, False))
+            if len(keys) > 2:
+                last = {k: 0 for _, k in allkeys}
+                last.update({keys[-1]: 1, keys[len(keys) // 2]: 1})
+                sets.append(("two-far-" + f["name"], last, False))
+    # recorded finding (found by this sweep): an ion selected without all lower-numbered ions
+    ionf = [f for f in fields if f["kind"] == "ion"]
+    if ionf and len(ions) >= 2:
+        sets.insert(2, ("ion-without-lower-ions", {ionf[0]["name"] + ions[0]: 0, ionf[0]["name"] + ions[1]: 1}, True))
+    items = []
+    for i, (name, flds, sq) in enumerate(sets):
+        gap = has_ion_gap(flds, fields, ions, heat)
+        c = dict(layout=(2, 1, 2), cells=ORDERINGS[i % 6], writer="Gadget", fields=flds, photons=500, iterations=2, diffuse=i % 2 == 0, temperature=i % 3 == 0,
+                 copy_level=1, ntasks=3000, nbuf=600, queue=1500)
+        items.append(dict(name="tbi-fields-" + name, kind="tbi-fields", param=tbi_param(c), threads=1 + i % 3, stages=[(["--task-based"], [r"snap\d+\.hdf5"])], san_quick=sq,
+                          **({"key": KEY_ION_GAP, "key_stage": 0} if gap else {})))
+        c = dict(layout=(2, 2, 1), cells=ORDERINGS[(i + 3) % 6], fields=flds, live=True, radiation=i % 2 == 1, photons=401, total_time=0.001, radtime=0.0005, snaptime=0.0005,
+                 ntasks=3000, nbuf=600, queue=1500)
+        items.append(dict(name="rhd-fields-" + name, kind="rhd-fields", param=rhd_param(c), threads=1 + (i + 1) % 3, stages=[(["--task-based-rhd"], [r"snap\d+\.hdf5"])], san_quick=sq,
+                          **({"key": KEY_ION_GAP, "key_stage": 0} if gap else {})))
+    c = dict(cells=(3, 2, 4), fields=sets[1][1], photons=500)
+    items.append(dict(name="tbi-fields-everything-on-asciifile", kind="tbi-fields", param=tbi_param(c), threads=2, stages=[(["--task-based"], [r"snap\d+\.txt"])], san_quick=False))
+    return items
+
+
+# command-line switches that select another simulation mode or are given to every run anyway
+CLI_NOT_A_SWITCH = {"params", "threads", "dirty", "dusty-radiative-transfer", "rhd", "emission", "task-based", "task-based-rhd", "file"}
+# how the check exercises each optional switch it knows: (mode, extra arguments)
+CLI_KNOWN = {
+    "verbose": ("both", ["--verbose"]), "logfile": ("both", ["--logfile", "run.log"]), "every-iteration-output": ("tbi", ["--every-iteration-output"]),
+    "output-statistics": ("tbi", ["--output-statistics"]), "task-plot": ("tbi", ["--task-plot"]), "no-initial-output": ("tbi", ["--no-initial-output"]),
+    "task-plot-rhd": ("rhd", ["--task-plot-rhd", "2"]), "output-time-unit": ("rhd", ["--output-time-unit", "Myr"]),
+    "number-of-steps": ("rhd", ["--number-of-steps", "3"]),
+}
+CLI_ELSEWHERE = {"dry-run": "rhd-dry-run, tbi-dry-run", "restart": "restart-*", "number-of-steps": "restart-*, rhd-writer-block-*"}
+
+
+def cli_switch_items(ctx, binary=None):
+    """every optional switch of the command line (read from the add_option calls of the sources of
+    the tree under test) appears in at least one run; coverage.cli_switches says where"""
+    found = []
+    for fn in ("CMacIonize.cpp", "TaskBasedRadiationHydrodynamicsSimulation.cpp", "TaskBasedIonizationSimulation.cpp", "RadiationHydrodynamicsSimulation.cpp"):
+        try:
+            text = open(os.path.join(vlib.REPO, "src", fn), encoding="utf-8").read()
+        except OSError:
+            continue
+        text = re.sub(r"//[^\n]*", "", re.sub(r"/\*.*?\*/", "", text, flags=re.S))
+        found += re.findall(r"add_(?:required_)?option(?:\s*<[^>]*>)?\s*\(\s*\"([\w-]+)\"", text)
+    found = [x for i, x in enumerate(found) if x not in found[:i]]
+    if not found:
+        ctx.notes.append("C12: no add_option call found in the sources; the literal list of command-line switches is used")
+        found = sorted(set(CLI_KNOWN) | {"dry-run", "restart", "use-version"})
+    where = {}
+    tbi_args, rhd_args = ["--task-based"], ["--task-based-rhd"]
+    for o in found:
+        if o in CLI_NOT_A_SWITCH:
+            continue
+        if o in CLI_ELSEWHERE:
+            where[o] = CLI_ELSEWHERE[o]
+        if o in CLI_KNOWN:
+            mode, args = CLI_KNOWN[o]
+            if mode in ("both", "tbi"):
+                tbi_args += args
+                where[o] = (where.get(o, "") + ", tbi-cli-switches").strip(", ")
+            if mode in ("both", "rhd"):
+                rhd_args += args
+                where[o] = (where.get(o, "") + ", rhd-cli-switches").strip(", ")
+        elif o == "use-version":
+            where[o] = "cli-use-version-mismatch (must be refused with an error message)"
+        elif o not in where:
+            where[o] = "NOT exercised: the check does not know this switch"
+    items = []
+    c = dict(cells=(2, 4, 3), layout=(2, 2, 1), diffuse=True, trackers=True, photons=1000, iterations=3, copy_level=1)
+    exp = [r"snap\d+\.txt"] + ([r"run\.log"] if "--logfile" in tbi_args else [])
+    items.append(dict(name="tbi-cli-switches", kind="tbi", param=tbi_param(c), threads=3, aux={"trackers.yml": tbi_tracker_yaml("SA", c)}, stages=[(tbi_args, exp)], san_quick=True))
+    c = dict(layout=(2, 2, 1), cells=(3, 2, 4), radiation=True, photons=401, live=True, total_time=0.002, radtime=0.0005, snaptime=0.0005, ntasks=3000, nbuf=600, queue=1500)
+    exp = [r"snap\d+\.hdf5"] + ([r"run\.log"] if "--logfile" in rhd_args else [])
+    items.append(dict(name="rhd-cli-switches", kind="rhd", param=rhd_param(c), threads=3, stages=[(rhd_args, exp)], san_quick=True))
+    if "use-version" in found:
+        items.append(dict(name="cli-use-version-mismatch", kind="tbi", param=tbi_param(dict()), threads=1, stages=[(["--task-based", "--use-version", "not-the-version-of-this-binary"], [])],
+                          san_quick=False, must_refuse="Wrong code version"))
+    ctx.cov["cli_switches"] = where
+    return items
+
+
 def run_plan(ctx):
     """every whole run of this tier: list of dicts (name, kind, stages [(args, expect)], param, threads, aux, key, san_quick)"""
     plan = []
@@ -844,6 +1013,8 @@ def run_plan(ctx):
         plan.append(dict(name=name, kind=kind, param=rhd_param(c), threads=threads,
                          stages=[(["--task-based-rhd"], live_expect(c))], san_quick=sq, repeat=repeat))
     plan += block_crossing_items(ctx)
+    plan += output_option_items(ctx)
+    plan += cli_switch_items(ctx)
     # recorded finding: a source outside the box (exactly one such configuration, stable key)
     c = dict(layout=(2, 2, 1), anchor=(0.1, -0.3, 0.7), sides=(1.1, 1.1, 1.1), source="default")
     plan.append(dict(name="rhd-source-outside-box", kind="finding", param=rhd_param(c), threads=1, stages=[(["--task-based-rhd", "--number-of-steps", "2"], [])],
@@ -959,6 +1130,12 @@ def whole_runs(ctx, binary, label, plan, env=None, timeout=60, wrapper=None):
                 ctx.count()
                 cmds.append("CMacIonize --params run.param --threads %d %s --dirty" % (nth, " ".join(args)))
                 ok, what = classify_run(res, expect)
+                if it.get("must_refuse"):
+                    # the binary has to refuse this command line with its error message (cmac_error
+                    # aborts): anything else - acceptance, a crash without the message, a memory
+                    # checker report - is the failure
+                    refused = (not res["timed_out"]) and res["rc"] != 0 and it["must_refuse"] in res["log"] and not SAN_RE.search(res["log"])
+                    ok, what = refused, ("the command line was not refused with the message %r (exit status %s)" % (it["must_refuse"], res["rc"]))
                 if not ok:
                     okall = False
                     hits += 1
